@@ -14,8 +14,8 @@ import (
 )
 
 var simotGroups = []struct {
-	name string
-	g    group.Group
+	name  string
+	g     group.Group
 	quick int
 }{
 	{"P256", group.P256, 150},
